@@ -1097,7 +1097,7 @@ class Executor(object):
         st = st.set(obj, "__class__", cls)
         # the object is built on this path by the real constructor code: its attribute set is known exactly
         # (only then is a missing attribute a genuine AttributeError, see class_attr)
-        st = st.set(obj, "__constructed__", con is None)
+        st = st.set(obj, "__constructed__", con is None or bool(getattr(con, "inline_at_call_sites", False)))
         if self.is_subkind(ci.name, "BaseException"):
             st = st.set(obj, "__mro__", self.exc_mro(ci.name))
         outs = [(st, "ok", obj)]
